@@ -12,6 +12,8 @@ from __future__ import annotations
 
 import z3
 
+from .budget import set_budget
+
 
 def _is_uf_app(e):
     return z3.is_app(e) and e.num_args() > 0 and e.decl().kind() == z3.Z3_OP_UNINTERPRETED
@@ -128,7 +130,7 @@ def second_chance(assertions, timeout_ms):
     except Exception:
         return "unknown"
     s = z3.SolverFor("QF_NRA")
-    s.set("timeout", timeout_ms)
+    set_budget(s, timeout_ms)
     for a in rel:
         s.add(a)
     try:
@@ -208,7 +210,7 @@ def third_chance(assertions, timeout_ms):
     except Exception:
         return "unknown"
     s = z3.Solver()
-    s.set("timeout", timeout_ms)
+    set_budget(s, timeout_ms)
     for a in ab:
         s.add(a)
     try:
